@@ -117,6 +117,7 @@ func (h *FSEventHandler) HandleEvent(ctx context.Context, event fsnotify.Event) 
 		if err = os.Remove(event.Name); err != nil {
 			h.Log.Warn("Failed to remove orphaned file", slog.Any("error", err))
 		}
+		verifEmit("remove", event.Name)
 		return GenerateResult{Updated: true, GoUpdated: true, TextUpdated: false}, nil
 	}
 
@@ -197,6 +198,7 @@ func (h *FSEventHandler) UpsertLastModTime(fileName string) (modTime time.Time, 
 	}
 	h.fileNameToLastModTimeMutex.Lock()
 	defer h.fileNameToLastModTimeMutex.Unlock()
+	verifEmit("modtime", fileName)
 	previousModTime := h.fileNameToLastModTime[fileName]
 	currentModTime := fileInfo.ModTime()
 	if !currentModTime.After(previousModTime) {
@@ -209,6 +211,7 @@ func (h *FSEventHandler) UpsertLastModTime(fileName string) (modTime time.Time, 
 func (h *FSEventHandler) UpsertHash(fileName string, hash [sha256.Size]byte) (updated bool) {
 	h.hashesMutex.Lock()
 	defer h.hashesMutex.Unlock()
+	verifEmit("hash", fileName)
 	lastHash := h.hashes[fileName]
 	if lastHash == hash {
 		return false
@@ -257,6 +260,7 @@ func (h *FSEventHandler) generate(ctx context.Context, fileName string) (result 
 		if err = h.writer(targetFileName, formattedGoCode); err != nil {
 			return result, nil, fmt.Errorf("failed to write target file %q: %w", targetFileName, err)
 		}
+		verifEmit("write", targetFileName)
 	}
 
 	// Add the txt file if it has changed.
